@@ -9,6 +9,13 @@ from .state import Unsupported, Raise, State, feasible
 from . import dsl
 
 
+LOG_FUNCS = {"log_count", "log_arg", "log_result", "log_result_field", "log_raised"}
+
+
+def _mentions_log(node):
+    return any(isinstance(n, ast.Call) and isinstance(n.func, ast.Name) and n.func.id in LOG_FUNCS for n in ast.walk(node))
+
+
 class CI:
     """A contract instantiated at concrete (symbolic) arguments."""
 
@@ -280,7 +287,7 @@ class ContractMixin:
             f = z3.simplify(args[1].t).as_string()
             lo, hi, ft = rec.ty.field_slice(f)
             if name == "rec_has":
-                return mk_bool(rec.terms[lo])
+                return mk_bool(rec.ty.present(rec.terms, f))
             if name == "rec_get":
                 return Val(ft, rec.terms[lo + 1:hi])
             return self.store_item(rec, args[1], args[2], st, node)
@@ -421,8 +428,17 @@ class ContractMixin:
         if decl.opts.get("returns_fresh") and isinstance(result, Val) and isinstance(result.ty, TRef):
             st.assume(z3.Not(z3.Select(ci.old.alloc, result.t)))
             st.fresh_refs.append(result)
+        feasible_before = None
         for lab, enode in ci.ensures:
+            if _mentions_log(enode):
+                continue        # a clause over the callee's own ghost call history says nothing a caller can use
+            if feasible_before is None:
+                feasible_before = feasible(st.pc, z3.BoolVal(True))
             st.assume(self.eval_in_contract(ci, enode, st, {"result": result}))
+        if feasible_before and not feasible(st.pc, z3.BoolVal(True)):
+            # vacuity guard: a contract whose postcondition cannot hold here would silently prune the path
+            self.add_obligation(st, z3.BoolVal(False), "shape", "postcondition-of-%s-is-contradictory-at-a-call-site" % callee, node)
+            return
         if log_entry is not None:
             log_entry["__result__"] = result
             log_entry["__heap_after__"] = dict(st.heap)       # the heap as the callee left it (for log_result_field)
